@@ -168,6 +168,29 @@ theorem normSvc_idempotent (clean : String → String) (hclean : ∀ s, clean (c
   rw [nnService_of_settled (netSettled_normService clean env (netSettled_nnService s))]
   exact normService_idem clean hclean env henv _
 
+/-! non-vacuity of the hypotheses used above -/
+
+example : CanonDeps [("b", depEntry true), ("c", .map [("condition", .str "service_healthy"), ("required", .bool false)])] := by
+  intro kv hkv
+  simp only [List.mem_cons, List.mem_nil_iff, or_false] at hkv
+  rcases hkv with e | e <;> subst e
+  · exact depEntry_canon true
+  · exact ⟨_, rfl, by simp [depDefaults, setIfAbsent, lookup]⟩
+
+example : SvcCanon [("image", .str "i"), ("depends_on", .map [("b", depEntry true)]),
+    ("env_file", .seq [.map [("path", .str "e.env"), ("required", .bool true)]])] := by
+  intro kv hkv
+  simp only [List.mem_cons, List.mem_nil_iff, or_false] at hkv
+  rcases hkv with e | e | e <;> subst e
+  · exact ⟨fun c => absurd c (by decide), fun c => absurd c (by decide)⟩
+  · refine ⟨fun _ => ?_, fun c => absurd c (by decide)⟩
+    exact (transformDependsOn_fixed_iff _).mpr (fun kv hkv => by
+      simp only [List.mem_cons, List.mem_nil_iff, or_false] at hkv; subst hkv; exact depEntry_canon true)
+  · refine ⟨fun c => absurd c (by decide), fun _ => ?_⟩
+    simp [transformEnvFile, envFileValue, setIfAbsent, lookup]
+
+/-- the hypotheses of `service_pipeline_fixed_point` other than `EscFacts` are satisfiable: Go's `path.Clean` model, empty environment -/
+example : (∀ s, pathClean (pathClean s) = pathClean s) ∧ envLookup [] "" = none := ⟨pathClean_idempotent, rfl⟩
 /-! ## 3. all three stages -/
 
 /-- **the service with every default written out is a fixed point of the whole pipeline**: if Canonical ;
